@@ -138,6 +138,24 @@ theorem err_le {x B : ℚ} (h0 : 0 ≤ x) (hx : x ≤ B) (hB : 1 ≤ B) : R.rnd 
 theorem le_err {x B : ℚ} (h0 : 0 ≤ x) (hx : x ≤ B) (hB : 1 ≤ B) : x - R.eps * B ≤ R.rnd x := by
   have := abs_le.mp (R.abs_err_le' h0 hx hB); linarith [this.1]
 
+/-- the error bound in additive form: eps * (|x| + tiny) -/
+theorem faithful_add (x : ℚ) : |R.rnd x - x| ≤ R.eps * (|x| + R.tiny) :=
+  le_trans (R.faithful x) (mul_le_mul_of_nonneg_left
+    (max_le (le_add_of_nonneg_right R.tiny_nonneg) (le_add_of_nonneg_left (abs_nonneg x))) R.eps_nonneg)
+
+/-- (1+eps)^m ≤ 1 + 2*m*eps as long as m*eps ≤ 1/2: first-order form of accumulated relative errors -/
+theorem one_add_eps_pow_le (m : ℕ) (h : (m : ℚ) * R.eps ≤ 1 / 2) : (1 + R.eps) ^ m ≤ 1 + 2 * m * R.eps := by
+  have he := R.eps_nonneg
+  induction m with
+  | zero => simp
+  | succ k ih =>
+    have hk : (k : ℚ) * R.eps ≤ 1 / 2 := by push_cast at h; nlinarith
+    have := ih hk
+    rw [pow_succ]; push_cast at h ⊢
+    have h1 : (1 + R.eps) ^ k * (1 + R.eps) ≤ (1 + 2 * k * R.eps) * (1 + R.eps) :=
+      mul_le_mul_of_nonneg_right this (by linarith)
+    nlinarith
+
 /-- relative error for values of at least normal magnitude -/
 theorem rel_err {x : ℚ} (hx : R.tiny ≤ |x|) : |R.rnd x - x| ≤ R.eps * |x| := by
   have := R.faithful x; rwa [max_eq_left hx] at this
